@@ -3,6 +3,14 @@
 mod consts;
 mod exec;
 mod gen;
+mod oracle;
+mod oracle_adsr;
+mod oracle_glide;
+mod oracle_lfo;
+mod oracle_midi;
+mod oracle_misc;
+mod oracle_quant;
+mod oracle_ribbon;
 mod rng;
 
 fn main() {
@@ -22,6 +30,22 @@ fn main() {
         }
         // exec: protocol lines on stdin -> observables of the implementation on stdout
         Some("exec") => exec::run_stdin(),
+        // oracle <prop>: protocol lines on stdin; runs them on the implementation and checks the property
+        Some("oracle") => {
+            use std::io::BufRead;
+            std::panic::set_hook(Box::new(|_| {}));
+            let ops: Vec<String> = std::io::stdin().lock().lines().map(|l| l.unwrap()).collect();
+            let mut o = exec::Obj::None;
+            let obs: Vec<String> = ops
+                .iter()
+                .map(|l| {
+                    let ws: Vec<&str> = l.split_whitespace().collect();
+                    if ws.is_empty() { "bad-op".to_string() } else { exec::step(&mut o, &ws) }
+                })
+                .collect();
+            let r = oracle::run(&args[2], &ops, &obs);
+            oracle::print_report(&args[2], ops.len(), &r);
+        }
         _ => {
             eprintln!("usage: verif-harness dump-consts | gen <stream> <seed> <n> | exec");
             std::process::exit(2);
